@@ -37,6 +37,13 @@ def parseHdrOp? (s : String) : Option HdrOp :=
       | _, _ => none
   | _ => none
 
+def parseCellOp? (s : String) : Option (Nat × HdrOp) :=
+  match s.splitOn ":" with
+  | c :: rest => match c.toNat?, parseHdrOp? (":".intercalate rest) with
+      | some c, some op => some (c, op)
+      | _, _ => none
+  | [] => none
+
 def showParams (p : Params Int) : String :=
   showList p.shape ++ " " ++ toString p.isz ++ " " ++ toString p.off ++ " " ++ toString p.slope ++ " " ++
     toString p.inter
@@ -71,6 +78,24 @@ def handle : List String → String
           | some (.error _) => "ERR"
           | none => "bad-op"
       | _, _, _ => "bad-op"
+  -- ECAT through the matrix list: ids = id column of the mlist in FILE order; elements numbered by file row,
+  -- third list = sub-header (row) whose scale factor the element carries
+  | ["ecatr", shape3, ids, idx] =>
+      match parseNatList? shape3, parseIntList? ids, parseIdx? idx with
+      | some shape3, some ids, some idx =>
+          let order := frameOrder ids
+          match ecatGetitemRows (fun i => order.getD i 0) shape3 order.length idx with
+          | .ok (sh, d) =>
+              "ok " ++ showList sh ++ " " ++ showOpt d ++ " " ++ showOpt (d.map (fun o => o.map (· / shape3.prod)))
+          | .error _ => "ERR"
+      | _, _, _ => "bad-op"
+  | ["ecatrarr", shape3, ids] =>
+      match parseNatList? shape3, parseIntList? ids with
+      | some shape3, some ids =>
+          let order := frameOrder ids
+          let r := ecatArrayRows (fun i => order.getD i 0) shape3 order.length
+          "ok " ++ showList r.1 ++ " " ++ showList r.2 ++ " " ++ showList (r.2.map (· / shape3.prod))
+      | _, _ => "bad-op"
   | ["ecatarr", shape3, t] =>
       match parseNatList? shape3, t.toNat? with
       | some shape3, some t => let r := ecatArray shape3 t; "ok " ++ showList r.1 ++ " " ++ showList r.2
@@ -123,6 +148,16 @@ def handle : List String → String
           let h : Hdr := ⟨shape, isz, off, sl, it⟩
           let w := (World.mk h (proxyOfHdr o h)).run ops
           showParams w.proxy ++ " | " ++ showParams (proxyOfHdr o w.hdr)
+      | _, _, _, _, _, _, _ => "bad-op"
+  -- frozen READ: two equal header objects (cells 0, 1), the proxy built from cell 0; ops `cell:op…` are applied to
+  -- the header OBJECTS after construction; printed: what `proxy[idx]` reads afterwards (element numbers)
+  | "frzr" :: ord :: thr :: isz :: off :: shape :: idx :: ops =>
+      match parseOrder? ord, thr.toNat?, isz.toNat?, off.toNat?, parseNatList? shape, parseIdx? idx,
+            ops.mapM parseCellOp? with
+      | some o, some thr, some isz, some off, some shape, some idx, some ops =>
+          let hdr : Hdr := ⟨shape, isz, off, none, none⟩
+          let w := (newProxy o [hdr, hdr] 0).run ops
+          showRes (w.read (fun (x : Int) _ _ => x) id (thresholdHeuristic thr) idx)
       | _, _, _, _, _, _, _ => "bad-op"
   | _ => "bad-op"
 
